@@ -52,6 +52,15 @@ PROPS = {
                         ('src/parallel.rs', 'impl TmpNodesReader', 'to_delete')] + FROZEN_ASSUMED + MAKE_ASSUMED + WB_ASSUMED,
         'not_decided': [],
     },
+    'C02': {
+        'verus': {'reader_search': ['Reader::nns', 'Reader::nns_by_leaf', 'NodeId::unwrap_item'], 'forest_lib': None,
+                  'reader_open': ['QueryBuilder::by_vector', 'QueryBuilder::by_item', 'item_leaf', 'Reader::open']},
+        'trusted': ['precondition search_forest_ok = the reader-side part of the C01 forest invariant (every root is a well-formed tree over exactly the stored items); C02 holds on every index for which C01 holds',
+                    'std BinaryHeap / sort_unstable / dedup stand-ins; OrderedFloat total order (uninterpreted order embedding)',
+                    'A4: a Vec<u32> never holds usize::MAX elements'],
+        'not_decided': ['that built_distance followed by normalized_distance equals the mathematical metric within rounding (floating point: see C11 / C12); "nearest" is in the total order OrderedFloat puts on the computed distances, ties by id',
+                        'reader.item_ids() = stored item keys is an assumption of search_forest_ok (it is what build writes: C01 / C05)'],
+    },
     'C03': {
         'verus': {'reader_search': ['Reader::nns', 'Reader::nns_by_leaf', 'NodeId::unwrap_item'],
                   'reader_open': ['QueryBuilder::by_vector', 'QueryBuilder::by_item', 'item_leaf', 'Reader::dimensions']},
@@ -60,17 +69,15 @@ PROPS = {
                     'OrderedFloat is a total order (order-embedding fkey into the integers, uninterpreted)',
                     'requires nodes_ok: Item keys hold leaves, Tree keys hold tree nodes whose children are Tree/Item references (local part of the C01 forest invariant)'],
         'not_decided': ['budget monotonicity (enlarging the budget never shortens the result nor worsens a rank): needs the traversal as a spec function over the deterministic heap order; not built',
-                        'unlimited budget with a filter = exact search restricted to the filter (needs the C01 forest invariant as precondition and a reachability invariant of the traversal loop; not built)',
                         'by_item(id) = by_vector(vector of id): both call nns_by_leaf whose contract mentions the query only through built_spec(query leaf, .); that new_header recomputes the header fields read by built_distance is not proved',
                         'every returned id is in reader.item_ids(): needs metadata.items = item key set (C01 build contract)'],
     },
     'C04': {
-        'verus': {'tree_insert': TREE_INSERT, 'tree_make': TREE_MAKE},
+        'verus': {'tree_insert': TREE_INSERT, 'tree_make': TREE_MAKE, 'reader_search': ['Reader::nns_by_leaf']},
         'assumed_fns': FROZEN_ASSUMED + MAKE_ASSUMED,
         'kani': {'quick': [('distance_side', ['side_follows_margin_sign', 'pq_distance_prefers_the_margin_side', 'pq_distance_from_root'])]},
         'static': ['no_override_side_pq'],
-        'not_decided': ['placement clauses of insert_items_in_file / make_tree_in_file and the reader push order are decided by the build-chain / reader units where claimed',
-                        'margin(normal, q) = margin(q, normal) (IEEE commutativity of multiplication and identical summation order of the kernels) is assumed',
+        'not_decided': [                        'margin(normal, q) = margin(q, normal) (IEEE commutativity of multiplication and identical summation order of the kernels) is assumed',
                         'ties d <= -margin fall back to node-id order'],
     },
     'C07': {
